@@ -2,16 +2,17 @@ import sys, os, random, collections
 sys.path.insert(0, os.path.dirname(os.path.abspath(__file__)))
 import common
 from streams import mh
+import streamlib
 pkg = common.build_pkg()
 rng = random.Random(int(sys.argv[1]) if len(sys.argv) > 1 else 1)
 n = int(sys.argv[2]) if len(sys.argv) > 2 else 600
 fl = sys.argv[3] if len(sys.argv) > 3 else None
 cases = [mh.gen_case(rng, fl or ["content", "md5", "setops"][i % 3]) for i in range(n)]
-res = mh.run_cases(cases, pkg, procs=16)
+res = streamlib.run_cases(mh, cases, pkg, procs=16)
 by = collections.defaultdict(list)
 for c, i, m, cr in res:
     if cr: print("CRASH", cr[1], cr[2][-300:]); continue
-    k = mh.first_diff(i, m)
+    k = streamlib.first_diff(mh, i, m)
     if k is not None:
         by[c[k].split()[0]].append((c, i, m, k))
 for op, l in by.items():
